@@ -27,6 +27,8 @@ def run(an: Analysis, rep):
     rep.rule("R05.3", "docstring slot guards over the finite guard domain", 2)
     from .common import purity
     rep.run(purity, an, rep, "R05.P", ["from_code", "normalize", "to_code"])
+    from .common import assert_guard_rule as _agrx
+    rep.run(_agrx, an, rep, "R05.G2", ["from_code", "normalize", "to_code"])
     fn, p, arms, fall_identity = parse_normalize(an)
     dcs = data_classes(an)
     for ci in dcs:
